@@ -129,6 +129,8 @@ class World:
         self.guard_default = True
         self.grad_poisoned = False
         self.exact = bool(self.cfg.get("exact", False))
+        dts = self.cfg.get("dtypes", ["f8"])
+        self.tol_dtype = np.float16 if "f2" in dts else (np.float32 if "f4" in dts else np.float64)
         self.need_discovery = any(getattr(o, "needs_ops", False) for o in self.obs)
         self.last_backward = None
         self.files = {}
@@ -639,16 +641,18 @@ class World:
         src_h = refs[0].get("t") if refs else None
         foreign = out_arr is not None
         orig_w = bool(sout.flags.writeable) if out_arr is None else self.a_orig[out_arr]
-        if self.tracking and od.view_capable and od.rearrange and src_h is not None and sout.size > 0:
+        if self.tracking and od.view_capable and (od.rearrange or (od.name == "einsum" and len(refs) == 1)) and src_h is not None:
             ssrc = self.S[src_h]
-            if np.shares_memory(sout, ssrc):
+            # NumPy says the result is a view of the operand (the same test MyGrad applies to the
+            # real arrays; np.shares_memory cannot tell for empty results)
+            if sout.base is not None and (sout.base is ssrc or sout.base is ssrc.base or (ssrc.base is None and False)) or (sout.size > 0 and np.shares_memory(sout, ssrc)):
                 si = self.info[src_h]
                 fam = si.fam
                 ids = od.ids(self.owner_ids(src_h), p)
                 if si.foreign:
                     foreign = True
-        if od.name == "einsum" and self.tracking and sout.size > 0:
-            # einsum views of other patterns are not modelled as families: mark foreign if it is a view
+        if od.name == "einsum" and self.tracking and sout.size > 0 and fam is None:
+            # multi-operand einsum never returns a view of an operand; be safe if NumPy ever does
             for r in refs:
                 if "t" in r and np.shares_memory(sout, self.S[r["t"]]):
                     foreign = True
@@ -972,6 +976,8 @@ class World:
         if live and self.use_tape and not info.const:
             try:
                 self._expect_grads(rec)
+            except HarnessError:
+                raise
             except Exception as e:  # the model could not produce an expectation: nothing is judged
                 rec["expected"] = None
                 rec["model_error"] = f"{type(e).__name__}: {e}"
@@ -1035,8 +1041,18 @@ class World:
         root = rec["nid"]
         rec["tainted"] = tp.tainted(root)
         cot, inf = tp.backward(root, rec["seed"])
+        if self.cfg.get("fd_sample") and not inf["nondiff"] and not inf["opaque"] and not self.exact_only_ints():
+            probs = tp.check_against_fd(root)
+            self.count("tape.fd_checked")
+            if probs:
+                raise HarnessError(f"tape VJP disagrees with finite differences: {probs[:3]}")
         rec["nondiff"] = inf["nondiff"]
         rec["opaque"] = inf["opaque"]
+        if inf["opaque"]:
+            # the tape has no rule for something in this graph: nothing is judged
+            rec["expected"] = None
+            self.count("tape.opaque_backward")
+            return
         reach = tp.upstream(root)
         exp = {}
         scale = 1.0
@@ -1073,6 +1089,50 @@ class World:
                     exp[k] = ("keep",)
         rec["expected"] = exp
         rec["reach_handles"] = [k for k, i in self.info.items() if i.nid in reach]
+
+    def exact_only_ints(self):
+        return False
+
+    def ev_terminal(self, ev):
+        """L = sum_i c_i * T[h_i].sum() over the terms that exist (shrink-friendly terminal)"""
+        h = ev["out"]
+        if h in self.T:
+            return self._skip("dup")
+        terms = [(k, c) for k, c in ev["terms"] if k in self.T and is_float(self.T[k].dtype)]
+        if not terms:
+            return self._skip("ref")
+        tp = self.tape
+        acc = sacc = nacc = None
+        self._mark_entered([{"t": k} for k, _ in terms])
+        try:
+            for k, c in terms:
+                m = self.T[k].sum() * c
+                acc = m if acc is None else acc + m
+                del m
+        except Exception as e:
+            acc = None
+            return Outcome("unexp", type(e).__name__, str(e)[:200])
+        all_const = True
+        for k, c in terms:
+            sm = np.asarray(self.S[k].sum() * np.asarray(c))
+            sacc = sm if sacc is None else np.asarray(sacc + sm)
+            i = self.info[k]
+            all_const = all_const and i.const
+            n1 = tp.apply("reduce", [i.nid], {"fn": "sum", "axis": None, "keepdims": False}, i.const)
+            n2 = tp.apply("ew2", [n1, tp.leaf(np.asarray(c, dtype=np.float64), True)], {"fn": "mul"}, i.const)
+            if nacc is None:
+                nacc, nconst = n2, i.const
+            else:
+                nconst = nconst and i.const
+                nacc = tp.apply("ew2", [nacc, n2], {"fn": "add"}, nconst)
+        self.T[h] = acc
+        self.S[h] = np.asarray(sacc)
+        ti = self._new_tinfo(h, acc, nconst, nacc)
+        ti.entered = bool(self.tracking and self.guard)
+        ti.made_by = "terminal"
+        del acc
+        self.h_update(np.asarray(self.T[h].data))
+        return Outcome("ok")
 
     def ev_clear(self, ev):
         h = ev["tgt"]
@@ -1121,6 +1181,12 @@ class World:
             self.SA.pop(h, None)
             self.a_orig.pop(h, None)
             self.a_entered.pop(h, None)
+        return Outcome("ok")
+
+    def ev_sched(self, ev):
+        return Outcome("ok")
+
+    def ev_sched_end(self, ev):
         return Outcome("ok")
 
     def ev_gc(self, ev):
